@@ -5043,3 +5043,54 @@ def tree_root_update_rules(ctx):
         ctx.check(len(pts) >= 1, 'floor|%s|root-store' % f.path, '%s writes the tree root through self.root' % pat, f, f.line)
         if pts:
             ctx.must_pass(f, pts, exits='success', what='the new root is stored on every success path of %s' % pat)
+
+
+def survey2_rules(ctx):
+    """State writes found by the second deletion survey (allocator, tracker, snapshot loading)."""
+    BA = 'BuddyAllocator'
+    ctx.set_rule('C14.R4', '')
+    f = ctx.fn(BA + '::free_inner')
+    if f is not None:
+        clr = ctx.sites(f, 'BtreeBitmap::clear', exact=2)
+        st = ctx.sites(f, 'BtreeBitmap::set', exact=1)
+        rec = ctx.sites(f, BA + '::free_inner', exact=1)
+        ctx.must_pass(f, clr + st, exits='any', what='a freed block is marked free at its order, or its buddy is taken out of the lower order for the merge')
+        ctx.order(f, st, rec, 'the buddy leaves the lower order before the merged block is freed one order up')
+    f = ctx.fn(BA + '::resize')
+    if f is not None:
+        store_rule(ctx, BA + '::resize', 'len', ('arg', 'new_size'), 'the allocator adopts its new size', exits='any')
+        ctx.sites(f, BA + '::free_inner', exact=2)
+    ctx.set_rule('C06.R5b', '')
+    for pat, inner in (('PageTracker::insert', 'PageTrackerPolicy::insert'), ('PageTracker::remove', 'PageTrackerPolicy::remove')):
+        f = ctx.fn(pat)
+        if f is None:
+            continue
+        p = ctx.sites(f, inner, exact=1)
+        e_off = core.guard_edges(f, [false_of('PageTracker::tracking')])
+        ctx.must_pass(f, p, exits='any', extra_cut_edges=e_off, what='while tracking is on, every allocation / release reaches the policy')
+        for q in p:
+            ctx.flows(f, q, 1, from_arg='page')
+    for pat, callee in (('PageTrackerPolicy::insert', 'HashSet::insert'), ('PageTrackerPolicy::remove', 'HashSet::remove')):
+        f = ctx.fn(pat)
+        if f is None:
+            continue
+        p = ctx.sites(f, [callee, callee.replace('HashSet', 'BTreeSet')], exact=1)
+        ctx.guarded(f, p, [Guard(place='self', vals={'Track'})], 'the set is touched in the Track state')
+        e_other = core.guard_edges(f, [Guard(place='self', vals={'Ignore'}), Guard(place='self', vals={'Closed'})])
+        ctx.must_pass(f, p, exits='any', extra_cut_edges=e_other, what='in the Track state the page is recorded')
+    ctx.set_rule('C11.R7', '')
+    f = ctx.fn(TM + '::load_allocator_state')
+    if f is not None:
+        pu = [cpoint(c) for c in f.calls_to('Vec::push')]
+        ctx.check(len(pu) == 1, 'floor|%s|push' % f.path, 'load_allocator_state collects the region allocators', f, f.line)
+        if pu:
+            ctx.each_iteration_passes(f, pu, 'every stored region allocator is loaded', 'region-not-loaded')
+            for p in pu:
+                ctx.flows(f, p, 1, from_call=BA + '::from_bytes')
+        iv = ctx.sites(f, TM + '::is_valid_allocator_state', exact=1)
+        rz = ctx.sites(f, 'Allocators::resize_to', exact=1)
+        ctx.must_pass(f, rz, exits='success', what='loaded allocators are resized to the current layout')
+        st = [p for p, s3 in _field_store_points(f, 'recovery_required') if s3[2]['k'] == 'use' and s3[2]['o'][0] == 'k' and s3[2]['o'][2] is False]
+        ctx.check(len(st) == 1, 'floor|%s|recovery-cleared' % f.path, 'a loaded snapshot clears recovery_required in memory', f, f.line)
+        if st and rz:
+            ctx.order(f, rz, st, 'recovery_required is cleared only after the allocators are in place')
